@@ -88,11 +88,21 @@ def build_body(case: dict) -> tuple[bytes, str, dict]:
         p["headers"] = hdrs
         parts.append(p)
     spec["parts"] = parts
-    body, _ = mg.render(spec)
+    body, marks = mg.render(spec)
     boundary = str(spec.get("boundary", "b")) or "b"
     truth = mg.truth(spec)
     max_field = max([len(t[3]) for t in truth if t[0] == "field"] or [0])
-    return body, f'multipart/form-data; boundary="{boundary}"', {"kind": kind, "n_parts": len(truth), "max_field": max_field, "wellformed": True}
+    facts = {"kind": kind, "n_parts": len(truth), "max_field": max_field, "wellformed": True}
+    cut = case.get("cut")
+    if isinstance(cut, int) and 0 < cut < len(body):
+        # the client sent only the first `cut` bytes of a well-formed body and ended the request there (no closing
+        # delimiter): what the prefix already shows must still be held against the limits
+        nl = len(mg.NL.get(spec.get("newline", "crlf"), b"\r\n"))
+        headers_seen = sum(1 for m in marks if cut >= m["data"][0] + nl)
+        present = [min(cut, m["data"][1]) - m["data"][0] for m, t_ in zip(marks, truth) if t_[0] == "field" and cut > m["data"][0]]
+        facts.update(wellformed=False, cut=cut, headers_seen=headers_seen, field_bytes_seen=max(present or [0]), boundary_len=len(boundary), n_parts=headers_seen, max_field=max(present or [0]))
+        body = body[:cut]
+    return body, f'multipart/form-data; boundary="{boundary}"', facts
 
 
 class FormLimits(Scenario):
@@ -153,6 +163,11 @@ class FormLimits(Scenario):
             mfms = rng.choice([max(0, facts["max_field"] - 1), facts["max_field"], facts["max_field"] + 1])
         framing = rng.choice(["declared", "declared", "terminated", "terminated_declared", "chunked_terminated", "none"])
         faults = rng.random() < 0.15
+        if body.get("type") == "multipart" and n > 2 and rng.random() < 0.12:
+            case["cut"] = rng.choice([rng.randrange(1, n), rng.randrange(max(1, n - 60), n), rng.randrange(max(1, n * 2 // 3), n)])
+            faults = False
+            raw, _, facts = build_body(case)
+            n = len(raw)
         case.update(
             {
                 "mfms": mfms,
@@ -282,6 +297,18 @@ class FormLimits(Scenario):
             out.violate(f"{pre}/body-read-despite-declared-length-over-maximum/{tag}", f"declared {declared} > max_content_length {mcl} but {lsim.pos} bytes were read")
         if mfms is not None and kind == "urlencoded" and framing != "none" and lsim.pos > mfms + 1:
             out.violate(f"{pre}/urlencoded-read-past-memory-limit/{'declared-length' if declared is not None else 'no-declared-length'}", f"{lsim.pos} bytes of an urlencoded form were read into memory with max_form_memory_size={mfms} (entry {entry}, framing {framing})")
+        # ---- a truncated body that already shows a limit being exceeded ---------------------
+        if facts.get("cut") is not None and not has_faults and framing != "none":
+            out.fault("request_ends_inside_body")
+            need = None
+            if mfp is not None and facts["headers_seen"] > mfp:
+                need = f"{facts['headers_seen']} part headers were received with max_form_parts={mfp}"
+            elif mfms is not None and facts["field_bytes_seen"] > mfms + facts["boundary_len"] + 64:
+                need = f"{facts['field_bytes_seen']} bytes of one field were received with max_form_memory_size={mfms}"
+            if need is not None:
+                out.probe("limit_exceeded_before_truncation")
+                if not (L[0] == "http" and L[1] == "RequestEntityTooLarge"):
+                    out.violate(f"{pre}/limit-exceeded-in-truncated-body-not-reported/{'parts' if 'headers' in need else 'field'}/{tag}", f"{need} before the body ended without its closing delimiter, yet the outcome was {L[:3] if L[0] != 'ok' else ('ok', len(L[1]), len(L[2]))} (framing {framing})")
         # ---- outcome ---------------------------------------------------
         if L[0] == "hang":
             out.violate(f"{pre}/endless-read/{tag}", L[1])
